@@ -492,7 +492,7 @@ fn main() {
     match args.get(1).map(|s| s.as_str()) {
         Some("check") => {
             let tier = arg("--tier").or_else(|| std::env::var("VERIF_TIER").ok()).unwrap_or("quick".into());
-            let iters: u64 = arg("--iters").and_then(|s| s.parse().ok()).unwrap_or(if tier == "thorough" { 150_000 } else { 4_000 });
+            let iters: u64 = arg("--iters").and_then(|s| s.parse().ok()).unwrap_or(if tier == "thorough" { 150_000 } else { 2_500 });
             let workers = std::thread::available_parallelism().map(|n| n.get()).unwrap_or(4);
             std::panic::set_hook(Box::new(|_| {}));
             let t0 = Instant::now();
